@@ -3,6 +3,7 @@
 package main
 
 import (
+	"fmt"
 	"encoding/json"
 	"strings"
 
@@ -66,6 +67,21 @@ func main() {
 			e.Emit(concCase(s, out, clean))
 		}
 		e.Meta["runs_stopped_inside_a_store_callback"] = nSd
+		// deep backlog on one worker
+		backlogs := []int{63, 64, 65, 66, 127, 128, 129, 130, 255, 257}
+		nBl := e.Scale(3, 20)
+		for i := 0; i < nBl && timeouts < 2*maxTimeouts; i++ {
+			b := backlogs[e.Rnd.Intn(len(backlogs))]
+			if i == 0 {
+				b = []int{65, 66, 129, 130}[e.Rnd.Intn(4)] // at least one run beyond 64 queued requests
+			}
+			s := genBacklog(e.Rnd, b)
+			out, clean := runConc(s, e.Rnd)
+			c := concCase(s, out, clean)
+			c.Class = fmt.Sprintf("backlog/b%d/w%d", b, s.G.N)
+			e.Emit(c)
+		}
+		e.Meta["deep_backlog_runs"] = nBl
 		// truly parallel callers
 		if !e.Search || focus == "" || strings.HasPrefix(focus, "par/") || strings.HasPrefix(focus, "hash/") {
 			for kind := 0; kind < nKinds; kind++ {
